@@ -127,7 +127,7 @@ def translate(ck):
     drop_mod = block_after(cyc, r"pub\(crate\) mod drop_impls\s*\{", "drop_impls")
     drop_mod_nc = strip_comments(drop_mod)
     for ty, kind in [("SteelVector", "VectorV"), ("SteelHashMap", "HashMapV"), ("UserDefinedStruct", "CustomStruct"),
-                     ("LazyStream", "StreamV"), ("ByteCodeLambda", "Closure")]:
+                     ("LazyStream", "StreamV"), ("ByteCodeLambda", "Closure"), ("Pair", "Pair")]:
         m = re.search(r"impl Drop for %s\s*\{" % ty, drop_mod_nc)
         if not m:
             table.append(("drop_entry", kind, "Rec"))     # compiler-generated recursive drop glue
@@ -176,7 +176,7 @@ def translate(ck):
         if kind in CONTAINER_KINDS and kind not in farms:
             rec = bool(re.search(r"self\.format_with_cycles\(", body))
             # formatting a nested value through Display/Debug starts a fresh detector (depth 0): unbounded
-            deleg = bool(re.search(r"write!\(\s*f\s*,\s*\"[^\"]*\{[:#?]*\}[^\"]*\"\s*,\s*(hm|hs|b\.read\(\)|b\.get\(\)|[a-z]+\.as_ref\(\)|hs\.0)", body))
+            deleg = bool(re.search(r"write!\(\s*f\s*,\s*\"[^\"]*\{[:#?]*\}[^\"]*\"\s*,\s*&?\s*(hm|hs|b\.read\(\)|b\.get\(\)|[a-z]+\.as_ref\(\)|hs\.0|item|last|i|value|key|p\.car|p\.cdr|[a-z]+\.car\(\)|[a-z]+\.cdr\(\))\b", body))
             farms[kind] = "Rec" if deleg else (("RecBounded" if guarded else "Rec") if rec else "Leaf")
     if len(farms) < 8:
         raise TieBroken("translator C18: only %d container arms found in format_with_cycles" % len(farms))
@@ -264,6 +264,57 @@ CYCLE_OPS = {"equal": "(equal? c1 c2)", "equal-self": "(equal? c1 c1)", "print":
              "discard": "(begin (set! c1 #f) (set! c2 #f) (#%gc-collect) 'discarded)", "hash": "(hash-contains? (hash-insert (hash) c1 1) c1)"}
 
 
+# model <-> engine on cyclic equality: the same small cyclic graphs, hand-encoded for the model (node -> label, children)
+COQ_HEADER = """From Coq Require Import List Arith String.
+From SV Require Import c18.Model_C18.
+Import ListNotations.
+Open Scope string_scope.
+Definition c18_show (o : option bool) : string := match o with Some true => "#t" | Some false => "#f" | None => "out-of-fuel" end.
+Definition g (l : list (nat * (nat * list nat))) : (nat -> nat) * (nat -> list nat) :=
+  (fun n => match find (fun p => Nat.eqb (fst p) n) l with Some p => fst (snd p) | None => 0 end,
+   fun n => match find (fun p => Nat.eqb (fst p) n) l with Some p => snd (snd p) | None => [] end).
+Definition c18_eq (l1 l2 : list (nat * (nat * list nat))) : string :=
+  c18_show (eq_loop 50 (fst (g l1)) (fst (g l2)) (snd (g l1)) (snd (g l2)) [(0, 0)] []).
+"""
+# (name, steel setup defining c1, c2 (isomorphic) and c3 (one leaf differs), model graph of c1/c2, model graph of c3)
+EQ_GRAPHS = [
+    ("mvector-self", "(define c1 (vector 0 2)) (vector-set! c1 0 c1) (define c2 (vector 0 2)) (vector-set! c2 0 c2) (define c3 (vector 0 3)) (vector-set! c3 0 c3)",
+     "[(0, (1, [0; 1])); (1, (102, []))]", "[(0, (1, [0; 1])); (1, (103, []))]"),
+    ("box-list", "(define c1 (box 0)) (set-box! c1 (list 1 c1)) (define c2 (box 0)) (set-box! c2 (list 1 c2)) (define c3 (box 0)) (set-box! c3 (list 2 c3))",
+     "[(0, (2, [1])); (1, (3, [2; 0])); (2, (101, []))]", "[(0, (2, [1])); (1, (3, [2; 0])); (2, (102, []))]"),
+    ("mvector-2cycle-leaf", "(define c1 (vector 0 7)) (define c1b (vector c1)) (vector-set! c1 0 c1b) (define c2 (vector 0 7)) (define c2b (vector c2)) (vector-set! c2 0 c2b) "
+                            "(define c3 (vector 0 8)) (define c3b (vector c3)) (vector-set! c3 0 c3b)",
+     "[(0, (1, [1; 2])); (1, (1, [0])); (2, (107, []))]", "[(0, (1, [1; 2])); (1, (1, [0])); (2, (108, []))]"),
+    ("mstruct-box", "(define c1 (c18mnode 5)) (set-c18mnode-next! c1 (box c1)) (define c2 (c18mnode 5)) (set-c18mnode-next! c2 (box c2)) (define c3 (c18mnode 5)) (set-c18mnode-next! c3 (box (box c3)))",
+     "[(0, (4, [1])); (1, (2, [0]))]", "[(0, (4, [1])); (1, (2, [2])); (2, (2, [0]))]"),
+]
+
+
+def eq_correspondence(ck):
+    exprs, cases = [], []
+    for name, setup, g12, g3 in EQ_GRAPHS:
+        exprs += ["c18_eq %s %s" % (g12, g12), "c18_eq %s %s" % (g12, g3)]
+        cases += [PRE + [setup, "(equal? c1 c2)"], PRE + [setup, "(equal? c1 c3)"]]
+    model = ck.coq_eval(COQ_HEADER, exprs)
+    res = run_cases(ck, cases, fresh=True, batch=1, stall=30, mem_gb=4, stack_kb=8192, nproc=8, max_bad_per_case=1)
+    bad = 0
+    for i, (m, r) in enumerate(zip(model, res)):
+        o = r[-1] or {"missing": 1}
+        got = (o.get("ok") or ["<%s>" % kind_of_outcome(o)])[-1]
+        ck.cov["evaluations"] += 1
+        if got != m:
+            bad += 1
+            name = EQ_GRAPHS[i // 2][0]
+            case = {"search": "cycle", "cycle": name, "op": "equal" if i % 2 == 0 else "unequal", "outcome": kind_of_outcome(o) if "ok" not in o else "wrong-answer",
+                    "units": cases[i], "model": m, "engine": got}
+            if kind_of_outcome(o) in ("hang", "crash", "panic"):
+                ck.failing_input("cyclic equal? %s: %s (model: %s)" % (name, kind_of_outcome(o), m), case, tag="cycle")
+            else:
+                ck.failing_input("cyclic equal? %s: engine %s, coinductive equality (model eq_loop) %s" % (name, got, m), case, tag="cycle")
+    ck.cov["eq_correspondence_cases"] = len(cases)
+    ck.cov["eq_correspondence_disagreements"] = bad
+
+
 def deep_case(shape, op, n):
     if shape in WIDE:
         build = "(define (c18-build n) %s)" % WIDE[shape].replace("N", "n")
@@ -343,6 +394,7 @@ def run(ck):
     table = translate(ck)
     proved = ck.proof_stage(["c18"], ["c18/Properties_C18"], "c18/Pins_C18.v", extra_obligations=0)
     ck.harness_build(["c07"])
+    eq_correspondence(ck)
     rng = ck.rng
     expected_rec = coq_expected_rec()
     rec_now = [(op, k) for (op, k, a) in table if a == "Rec"]
@@ -405,6 +457,10 @@ def run(ck):
         if k in ("ok", "err"):
             if k == "ok":
                 d["value"] = o.get("ok")
+            if m["search"] == "cycle" and m["op"] in ("equal", "equal-self") and (k != "ok" or (o.get("ok") or [""])[-1] != "#t"):
+                d["outcome"] = "wrong-answer"
+                fails.append(d)
+                continue
             if not probe_ok and k == "ok":
                 d["outcome"] = "engine-unusable-after"
                 fails.append(d)
